@@ -49,6 +49,26 @@ type Solver struct {
 	lines     chan string
 	Dead      bool
 	timeoutMs int
+	curTO     int
+	FeasTimeoutMs int // shorter limit for branch-feasibility queries (unknown = keep the branch)
+}
+
+// setTimeout switches the per-query time limit (z3: dynamic option; cvc5: fixed at start).
+func (s *Solver) setTimeout(ms int) {
+	if ms <= 0 || ms == s.curTO || s.Name == "cvc5" {
+		return
+	}
+	s.curTO = ms
+	s.send(fmt.Sprintf("(set-option :timeout %d)", ms))
+}
+
+// CheckFeas is Check with the (shorter) feasibility time limit.
+func (s *Solver) CheckFeas(extra ...*Term) Result {
+	if s.FeasTimeoutMs > 0 {
+		s.setTimeout(s.FeasTimeoutMs)
+		defer s.setTimeout(s.timeoutMs)
+	}
+	return s.Check(extra...)
 }
 
 // NewSolver starts a solver. kind: "z3", "z3-new", "cvc5".
@@ -123,7 +143,11 @@ func (s *Solver) readUntilMarker() []string {
 	s.send(`(echo "#done#")`)
 	var lines []string
 	// watchdog: the solver's own per-query timeout is not always honoured
-	limit := time.Duration(3*s.timeoutMs+5000) * time.Millisecond
+	cur := s.timeoutMs
+	if s.curTO > 0 {
+		cur = s.curTO
+	}
+	limit := time.Duration(3*cur+5000) * time.Millisecond
 	timer := time.NewTimer(limit)
 	defer timer.Stop()
 	for {
@@ -207,6 +231,9 @@ func (s *Solver) Check(extra ...*Term) Result {
 	}
 	r, msg := classify(lines)
 	d := time.Since(t0)
+	if s.log != nil {
+		fmt.Fprintf(s.log, "; ^ check: %s in %d ms\n", r, d.Milliseconds())
+	}
 	s.Stats.Queries++
 	s.Stats.Time += d
 	if d > s.Stats.MaxQuery {
